@@ -34,8 +34,12 @@ class B:
     def _ps(self, ps):
         return list(ps) if ps is not None else [p["id"] for p in self.parts]
 
-    def choose(self, start, dur, num=1, util=1, ps=None):
-        return self._add("Choose", "t", partitions=self._ps(ps), num=num, start=start, duration=dur, utility=util)
+    def choose(self, start, dur, num=1, util=1, ps=None, name=None):
+        nid = self._add("Choose", "t", partitions=self._ps(ps), num=num, start=start, duration=dur, utility=util)
+        if name is not None:
+            # the Python caller names every option of a task after the task: several leaves, one name
+            self.nodes[-1]["name"] = name
+        return nid
 
     def wchoose(self, start, end, dur, num=1, util=1, gran=1, ps=None):
         return self._add("WindowedChoose", "t", partitions=self._ps(ps), num=num, start=start, duration=dur, end=end, granularity=gran, utility=util)
@@ -249,6 +253,31 @@ def systematic():
             _fam(out, f"grid{g}_w", b, b.obj(b.wchoose(0, 2 * g, 2, util=2), b.choose(g, 1), b.alloc(0, 1, [(1, 1)])))
             b = B(q)
             _fam(out, f"grid{g}_min", b, b.obj(b.min(b.choose(0, g - 1), b.choose(g, 1)), b.min(b.choose(0, 1, util=2), b.choose(2 * g, 1))))
+    # --- the options of one task carry the task's name (what the Python caller builds) ----
+    for q in ([1], [2]):
+        b = B(q)
+        ta = b.max(b.choose(0, 2, name="taskA", util=2), b.choose(1, 2, name="taskA"), b.choose(3, 1, name="taskA"))
+        tb = b.max(b.choose(0, 2, name="taskB"), b.choose(2, 2, name="taskB", util=2))
+        _fam(out, "same_name", b, b.obj(ta, tb))
+        b = B(q)
+        ta = b.max(b.choose(0, 2, name="taskA"), b.choose(1, 2, name="taskA"))
+        tb = b.max(b.choose(2, 1, name="taskB"), b.choose(3, 1, name="taskB"))
+        tc = b.max(b.choose(2, 2, name="taskC"), b.choose(4, 1, name="taskC"))
+        _fam(out, "same_name_graph", b, b.obj(b.lt(ta, b.min(tb, tc))))
+    # --- a running task (Allocation) ordered before options that cannot all follow it -----
+    for q in ([1], [2]):
+        b = B(q)
+        _fam(out, "alloc_lt_blocked", b, b.obj(b.lt(b.alloc(0, 2, [(1, 1)]), b.max(b.choose(1, 1))), b.choose(2, 1, util=3)))
+        b = B(q)
+        _fam(out, "alloc_lt_blocked", b, b.obj(b.lt(b.alloc(0, 3, [(1, 1)]), b.max(b.choose(1, 1), b.choose(3, 1, num=3))), b.max(b.choose(3, 1, util=2))))
+    # --- an ordering that cannot be met, first child a WindowedChoose ----------------------
+    b = B([2])
+    _fam(out, "lt_impossible_w", b, b.obj(b.lt(b.wchoose(0, 2, 1), b.max(b.choose(0, 1, util=3))), b.choose(1, 1)))
+    b = B([2])
+    _fam(out, "lt_impossible_w", b, b.obj(b.lt(b.wchoose(0, 2, 2), b.max(b.choose(0, 1, util=3))), b.choose(2, 1)))
+    # --- a window that opens before `now` --------------------------------------------------
+    b = B([1], now=2)
+    _fam(out, "past_windowed", b, b.obj(b.wchoose(0, 3, 1, util=2)))
     # --- LessThan over children with constant times (not built by the Python caller) --
     b = B([1])
     _fam(out, "lt_const", b, b.obj(b.lt(b.choose(0, 2), b.choose(2, 2))), tags=("lt_const",))
@@ -280,10 +309,10 @@ def random_tree(rng, k, max_leaves=4, max_depth=3, kinds=("Choose", "WindowedCho
             return [rng.choice(allp)]
         return allp
 
-    def choose():
+    def choose(task=None):
         budget[0] -= 1
         s = rng.choice(starts())
-        return b.choose(s, rng.randint(1, min(3, H - s)), num=rng.choice([1, 1, 2]), util=rng.randint(1, 3), ps=ps())
+        return b.choose(s, rng.randint(1, min(3, H - s)), num=rng.choice([1, 1, 2]), util=rng.randint(1, 3), ps=ps(), name=task)
 
     def leafish(allow_const=True):
         r = rng.random()
@@ -301,7 +330,17 @@ def random_tree(rng, k, max_leaves=4, max_depth=3, kinds=("Choose", "WindowedCho
             s = rng.choice(starts())
             return b.alloc(s, rng.randint(1, 2), [(rng.randint(1, nparts), 1)])
         n = rng.randint(1, max(1, min(3, budget[0])))
-        return b.max(*[choose() for _ in range(n)])
+        task = f"task{len(b.nodes)}" if rng.random() < 0.5 else None
+        used = set()
+        kids = []
+        for _ in range(n):
+            c = choose(task)
+            key = (b.nodes[-1]["start"], b.nodes[-1]["duration"])
+            if task and b.nodes[-1]["start"] in used:
+                b.nodes[-1]["name"] = f"t{len(b.nodes)}"  # two options of a task never share a start time
+            used.add(b.nodes[-1]["start"])
+            kids.append(c)
+        return b.max(*kids)
 
     def expr(depth):
         if pool and rng.random() < 0.15:
@@ -320,7 +359,7 @@ def random_tree(rng, k, max_leaves=4, max_depth=3, kinds=("Choose", "WindowedCho
                 else:
                     e = b.lt(x, y)
             else:
-                e = b.scale(rng.randint(0, 3), expr(depth + 1), disregard=rng.random() < 0.25)
+                e = b.scale(rng.randint(1, 3), expr(depth + 1), disregard=rng.random() < 0.25)
         pool.append(e)
         return e
 
@@ -418,7 +457,7 @@ def corpus(tier, rng, cfg):
         attempts += 1
         t = random_tree(rng, k, max_leaves=max_leaves, max_depth=3 if tier == "quick" else 4)
         c = canonical(t)
-        if c in seen or not leaves(t):
+        if c in seen or not leaves(t) or len(leaves(t)) > max_leaves:
             continue
         seen.add(c)
         trees.append(t)
